@@ -530,7 +530,7 @@ def run(ctx: Ctx) -> Outcome:
     live = gen_styles.collect()
     markers = [m["name"] for m in live["markers"]]
     dcs, box_classes, edge_classes, ports = table_classes()
-    out.table_obligations = 3 * (-(-len(live["entries"]) // gen_styles.ROWS_PER_CHUNK)) + 2 * (-(-len(live["symbols"]) // gen_styles.ROWS_PER_CHUNK)) + 9
+    out.table_obligations = 4 * (-(-len(live["entries"]) // gen_styles.ROWS_PER_CHUNK)) + 2 * (-(-len(live["symbols"]) // gen_styles.ROWS_PER_CHUNK)) + 9
 
     combos = [(k, c) for k in ("box", "symbol", "box_symbol") for c in box_classes] + \
              [(k, c) for k in ("edge", "circle") for c in edge_classes] + [("port", c) for c in ports]
